@@ -618,8 +618,16 @@ pub fn zoned_instant(rng: &mut Rng) -> (String, String) {
     let (y, m, d) = *rng.pick(DAYS);
     let base = Utc.with_ymd_and_hms(y, m, d, 0, 0, 0).single().unwrap_or_default();
     let at = base + Duration::minutes(rng.below(48 * 4) as i64 * 15 - 12 * 60) + Duration::seconds(if rng.chance(1, 2) { rng.below(60) as i64 } else { 0 });
-    let local = at.with_timezone(&tz);
-    let off = local.offset().fix().local_minus_utc();
+    let own = at.with_timezone(&tz).offset().fix().local_minus_utc();
+    // the instant is spelled at the zone's own offset, or - as text that comes from another
+    // system may - at UTC ('Z') or at some other offset, with the zone named all the same
+    let spelling = rng.below(4);
+    let off = match spelling {
+        0 | 1 => own,
+        2 => 0,
+        _ => (rng.below(27 * 4) as i32 - 12 * 4) * 900,
+    };
+    let local = at.with_timezone(&chrono::FixedOffset::east_opt(off).unwrap_or_else(|| chrono::FixedOffset::east_opt(0).unwrap()));
     let (sign, a) = if off < 0 { ('-', -off) } else { ('+', off) };
     let mut ts = format!("{:04}-{:02}-{:02}T{:02}:{:02}:{:02}", local.year(), local.month(), local.day(), local.hour(), local.minute(), local.second());
     if rng.chance(1, 2) {
@@ -630,7 +638,11 @@ pub fn zoned_instant(rng: &mut Rng) -> (String, String) {
             ts.push((b'0' + dgt as u8) as char);
         }
     }
-    ts.push_str(&format!("{sign}{:02}:{:02}", a / 3600, (a % 3600) / 60));
+    if spelling == 2 {
+        ts.push('Z');
+    } else {
+        ts.push_str(&format!("{sign}{:02}:{:02}", a / 3600, (a % 3600) / 60));
+    }
     let zone = id[id.find('/').map_or(0, |i| i + 1)..].to_string();
     (ts, zone)
 }
